@@ -1,10 +1,11 @@
 from .runner import Property
 from .fam_replica import ReplicaFam
 from .fam_cert import CertFam
+from .fam_kauri import KauriFam
 from .prop_C03 import REPLICA_TRUST
 
 PROP = Property(
-    "C10", ["HsVerif.Props.C10", "HsVerif.Props.C10Inert"], [ReplicaFam("c10"), CertFam("c10")],
+    "C10", ["HsVerif.Props.C10", "HsVerif.Props.C10Inert"], [ReplicaFam("c10"), CertFam("c10"), KauriFam()],
     facts=[
         {"func": "server/server.go:serviceImpl.Propose", "order": ["PeerIDFromContext", "GetBlock", "ProposalFromProto", "AddEvent"]},
         {"func": "server/server.go:serviceImpl.Vote", "order": ["PeerIDFromContext", "AddEvent"]},
